@@ -121,6 +121,42 @@ pub fn run(p: &Params, rep: &mut Report) {
         }
         #[cfg(not(feature = "dump"))]
         rep.note("dump_unavailable: index-by-index comparison skipped");
+        // (1b) lookups by temporary id answer alike (which ids resolve is configuration that travels with the id maps)
+        {
+            rep.eval();
+            let probe = |st: &AnnotationStore| -> Result<Vec<(String, bool)>, Panic> {
+                guard(|| {
+                    let mut v = Vec::new();
+                    for i in 0..h.model.next_ann.min(12) {
+                        let id = format!("!A{}", i);
+                        v.push((id.clone(), st.annotation(id.as_str()).is_some()));
+                    }
+                    for i in 0..h.model.next_res.min(6) {
+                        let id = format!("!R{}", i);
+                        v.push((id.clone(), st.resource(id.as_str()).is_some()));
+                    }
+                    for i in 0..h.model.next_set.min(6) {
+                        let id = format!("!S{}", i);
+                        v.push((id.clone(), st.dataset(id.as_str()).is_some()));
+                        if let Some(ds) = st.dataset(AnnotationDataSetHandle::new(i)) {
+                            for k in 0..4 {
+                                let kid = format!("!K{}", k);
+                                v.push((format!("{}/{}", id, kid), ds.key(kid.as_str()).is_some()));
+                                let did = format!("!D{}", k);
+                                v.push((format!("{}/{}", id, did), ds.annotationdata(did.as_str()).is_some()));
+                            }
+                        }
+                    }
+                    v
+                })
+            };
+            if let (Ok(a), Ok(b)) = (probe(&h.store), probe(&loaded)) {
+                if let Some(((id, x), (_, y))) = a.iter().zip(b.iter()).find(|(x, y)| x != y) {
+                    let kind = id.rsplit('/').next().unwrap_or("").chars().nth(1).unwrap_or('?');
+                    rep.violation(format!("C11/temporary-id-lookup-differs/{}", kind), json!({"lookup": id, "saved": x, "loaded": y, "history": hj(&h, &extra)}));
+                }
+            }
+        }
         // (2) observation with handles and every lookup
         rep.eval();
         match (obs::observe(&h.store, true, true), obs::observe(&loaded, true, true)) {
